@@ -305,6 +305,10 @@ func muPtr(mu any) (p unsafe.Pointer, rw, ok bool) {
 		return unsafe.Pointer(m), false, true
 	case **sync.Mutex:
 		return unsafe.Pointer(*m), false, *m != nil
+	case *sync.Locker:
+		if *m != nil {
+			return muPtr(*m) // a mutex held through the sync.Locker interface
+		}
 	}
 	return nil, false, false
 }
